@@ -506,8 +506,11 @@ func (r *BucketRing) EmitFlowCollections(sink Sink) {
 		endIndex = startIndex
 		startIndex = r.indexSubtract(startIndex, r.bucketsToAggregate)
 
-		// Terminate the loop if we've gone through all the buckets.
-		if r.indexBetween(startIndex, endIndex, r.headIndex) {
+		// Terminate the loop if we've gone through all the buckets: the next window would either start
+		// exactly on the head bucket or wrap past it. Walking on would start a second lap around the ring,
+		// which emits the newest (still filling) buckets early, emits older buckets a second time, and never
+		// terminates if bucketsToAggregate divides the ring size.
+		if startIndex == r.headIndex || r.indexBetween(startIndex, endIndex, r.headIndex) {
 			break
 		}
 	}
